@@ -7,6 +7,7 @@ import (
 	"fmt"
 	"math/rand"
 	"os"
+	"runtime"
 	"sort"
 	"sync"
 	"time"
@@ -56,6 +57,11 @@ func (c *Ctx) Step(format string, a ...interface{}) {
 		return
 	}
 	c.pmu.Lock()
+	if os.Getenv("VERIF_MEM") != "" {
+		var m runtime.MemStats
+		runtime.ReadMemStats(&m)
+		fmt.Fprintf(c.prog, "MEM heap=%dMB sys=%dMB goroutines=%d\n", m.HeapAlloc>>20, m.Sys>>20, runtime.NumGoroutine())
+	}
 	fmt.Fprintf(c.prog, "START "+format+"\n", a...)
 	c.pmu.Unlock()
 }
@@ -86,14 +92,14 @@ func (c *Ctx) Parallel(n, workers int, f func(i int)) {
 
 // Runner is a property check.
 type Runner struct {
-	Prop     string
-	Level    string // evidence level
-	Rule     string // how cases are generated and what makes one non-trivial/distinct
-	Shards   func(tier string) int
-	Timeout  func(tier string) time.Duration
-	Run      func(c *Ctx)
-	Race     bool // run the worker from the -race build
-	Subproc  bool // needs the plain cql-proxy binary
+	Prop    string
+	Level   string // evidence level
+	Rule    string // how cases are generated and what makes one non-trivial/distinct
+	Shards  func(tier string) int
+	Timeout func(tier string) time.Duration
+	Run     func(c *Ctx)
+	Race    bool // run the worker from the -race build
+	Subproc bool // needs the plain cql-proxy binary
 }
 
 var registry = map[string]*Runner{}
